@@ -30,7 +30,7 @@ def shards(tier, seed):
 
 
 def requirements(tier):
-    return {"trimmed_interval_checked": 1500, "trimmed_definition_checked": 1500, "krum_selection_checked": 1000, "too_few_rows_rejected": 100,
+    return {"trimmed_interval_checked": 1500, "trimmed_definition_checked": 1500, "krum_selection_checked": 1000, "krum_tie_plain_average_checked": 50, "too_few_rows_rejected": 100,
             "enough_rows_accepted": 100, "w_corruption_at_max_magnitude": 200, "w_krum_m_minus_f_minus_1_would_differ": 50, "w_all_b_rows_corrupted": 200,
             "w_float32": 500, "w_krum_k_ge_2": 200, "w_krum_more_than_25_rows": 100}
 
@@ -150,12 +150,22 @@ def check_case(case, ctx):
                 ctx.not_judged("krum_weights_unavailable")
                 return
         gap = M.krum_gap(J, f, k)
-        if gap < {"float64": 1e-6, "float32": 1e-3}[dname]:
-            ctx.not_judged("krum_score_tie")
-            return
-        sel = R.krum_selection_ref(J, f, k)
         got = {i for i in range(m) if abs(w[i]) > 1e-6}
         ok_weights = all(abs(w[i] - 1.0 / k) <= 1e-5 for i in got) and len(got) == k
+        if gap < {"float64": 1e-6, "float32": 1e-3}[dname]:
+            # the k-th and (k+1)-th scores tie (duplicate rows, or the minimal row count m = f + 3 where the closest pair always
+            # ties): WHICH rows are selected is then not determined, but the output is still the plain average of exactly k
+            # distinct rows, none of which scores worse than a row left out
+            ctx.count("krum_tie_plain_average_checked")
+            sc = M.krum_scores(J, f)
+            if not ok_weights:
+                ctx.violation("krum_is_not_a_plain_average_of_k_distinct_rows", case, {"weights": w.tolist(), "k": k, "scores": sc.tolist(), "note": "tied scores"})
+            elif got and len(got) < m and max(sc[i] for i in got) > min(sc[i] for i in range(m) if i not in got) * (1 + {"float64": 1e-6, "float32": 1e-3}[dname]) + 1e-300:
+                ctx.violation("krum_selects_the_wrong_rows", case, {"selected": sorted(got), "scores": sc.tolist(), "note": "tied scores"})
+            ctx.not_judged("krum_score_tie(selection)")
+            ctx.evaluated(fingerprint(case), nontrivial=True)
+            return
+        sel = R.krum_selection_ref(J, f, k)
         ctx.count("krum_selection_checked")
         if not ok_weights:
             ctx.violation("krum_is_not_a_plain_average_of_k_distinct_rows", case, {"weights": w.tolist(), "k": k})
